@@ -32,6 +32,7 @@ KIND = {
     "d": ("OUT", "DONATE"),
     "M": ("INTRA", "MOVE"),
     "k": ("OUT", "STAKING"),
+    "T": ("IN", "STAKING"),
 }
 
 
